@@ -14,9 +14,10 @@ def expect(inst, n, fill, tail):
     return first, second
 
 
-def find(run, failure):
+def find(run, failure, skip_known=False):
     binary = replay.build(run, 'c25', deps=('erg',), cfg_hook=True)
-    cases = [(inst, n, 7, 4) for n in SIZES for inst in (1, 6)]
+    sizes = [n for n in SIZES if not (skip_known and isinstance(n, int) and n > 65535)]   # payloads above 65535: listed known finding
+    cases = [(inst, n, 7, 4) for n in sizes for inst in (1, 6)]
     lines = ["%d %s %d %d" % c for c in cases]
     outs = replay.run_lines(binary, lines)
     for c, out in zip(cases, outs):
